@@ -52,6 +52,7 @@ def run(prog, chk):
     filter_closed(prog, chk)
     consumed(prog, chk)
     from_bbox_only(prog, chk)
+    transform_names(prog, chk)
     X.check_sinks(prog, chk)
     X.check_readers(prog, chk)
     chk.obs = [o for o in chk.obs if o["key"] not in ("A11.sink/events::<impl std::convert::From<events::OutputEvent> for quick_xml::events::Event<'a>>::from:from_escaped:comment",)]
@@ -166,3 +167,33 @@ def from_bbox_only(prog, chk):
         if o[0] == "call" and "fn" in o[2] and Callee(o[2]["fn"]).path in PARSERS:
             verdict = True
     chk.ob(bool(used) and used <= guard and verdict, "A16.bypass-parser", "bbox_raw:passthrough", pt.where(), f"the unit bypass is decided by the same number parser the arms apply afterwards ({sorted(x.split('::')[-1] for x in used)}): whatever that parser rejects (and is not a reference) is passed through", f"bbox_raw parses geometry values with {sorted(used)} but the bypass predicate is built on {sorted(guard)} (parser verdict used: {verdict}): a standard SVG length the predicate does not recognise is rejected instead of passed through")
+
+
+SVG_TRANSFORM_FUNCTIONS = ("translate", "scale", "rotate", "skewX", "skewY", "matrix")
+
+
+def transform_names(prog, chk):
+    """all six SVG transform functions are accepted under their standard spelling: each is an arm literal of
+    TransformType::from_str, or its lower-case form is and the name is lower-cased before the match"""
+    b = prog.body("<svgdx::transform_attr::TransformType as std::str::FromStr>::from_str")
+    chk.touch(b)
+    h = prog.hir[b.id]
+    best = None
+    for m, arms in hirq.str_matches(h):
+        lits = {l for ls, a in arms for l in ls if l != hirq.WILD}
+        if best is None or len(lits) > len(best[1]):
+            best = (m, lits)
+    if best is None:
+        chk.anchor_missing("A14.transform-names", "TransformType::from_str: no match over the function name")
+        return
+    m, lits = best
+    lowered = any(mc["name"] in ("to_lowercase", "to_ascii_lowercase") for mc in hirq.exprs(m["scrut"], "MethodCall"))
+    if not lowered and m["scrut"].get("k") == "Path":
+        # scrutinee is a local: look at its initialiser
+        name = (m["scrut"].get("res") or {}).get("local")
+        for st in hirq.walk(h["body"]):
+            if isinstance(st, dict) and st.get("k") == "Let" and isinstance(st.get("pat"), dict) and st["pat"].get("name") == name and isinstance(st.get("init"), dict):
+                lowered = any(mc["name"] in ("to_lowercase", "to_ascii_lowercase") for mc in hirq.exprs(st["init"], "MethodCall"))
+    for fn in SVG_TRANSFORM_FUNCTIONS:
+        ok = fn in lits or (lowered and fn.lower() in lits)
+        chk.ob(ok, "A14.transform-names", fn, b.where(), f"`{fn}(..)` is recognised", f"the standard transform function `{fn}` is not matched by TransformType::from_str (arm literals {sorted(lits)}, name lower-cased before matching: {lowered}): plain SVG using it makes the transform fail")
